@@ -234,8 +234,12 @@ package cbe
 //@   use ONEBYTE(_this, 0x97)
 //@ func (*Encoder).OnEndContainer
 //@   use ONEBYTE(_this, 0x9b)
+// Reset point (C16): whatever the encoder went through before, a new document starts with no
+// array pending (arrayType is only read while trySmallArrayHeader is set or after OnArrayBegin).
 //@ func (*Encoder).OnBeginDocument
 //@   use ONEBYTE(_this, 0x81)
+//@   modifies _this.trySmallArrayHeader
+//@   ensures !_this.trySmallArrayHeader
 
 //@ func (*Encoder).OnComment
 //@   ensures true
